@@ -9,13 +9,13 @@ import (
 
 // Scenario is a complete, self-contained description of one simulated run.
 type Scenario struct {
-	Prop  string             `json:"prop"`
-	Seed  uint64             `json:"seed"` // the run seed it was generated from (informational)
-	Tier  string             `json:"tier,omitempty"`
-	Cfg   map[string]float64 `json:"cfg,omitempty"`
-	S     map[string]string  `json:"s,omitempty"`
-	Steps []Step             `json:"steps,omitempty"`
-	Sched [][2]int           `json:"sched,omitempty"` // (global step index, next task) preemptions
+	Prop  string               `json:"prop"`
+	Seed  uint64               `json:"seed"` // the run seed it was generated from (informational)
+	Tier  string               `json:"tier,omitempty"`
+	Cfg   map[string]float64   `json:"cfg,omitempty"`
+	S     map[string]string    `json:"s,omitempty"`
+	Steps []Step               `json:"steps,omitempty"`
+	Sched [][2]int             `json:"sched,omitempty"` // (global step index, next task) preemptions
 	Data  map[string][]float64 `json:"data,omitempty"`
 }
 
@@ -230,4 +230,30 @@ func StepShrinks(sc *Scenario) []*Scenario {
 		}
 	}
 	return out
+}
+
+// SafeGenerate runs a generator. Generators execute the real library while
+// they build a scenario; if the library panics there (or hands out a tensor
+// whose Shape() and At() disagree) that is a violation found during
+// generation, reported with an empty scenario: the replay regenerates run idx.
+// Panics raised by the harness itself (HarnessPanic / "harness:" prefix) are
+// bugs and propagate.
+func SafeGenerate(p Property, r *Rand, tier string) (sc *Scenario, v *Violation) {
+	defer func() {
+		if rec := recover(); rec != nil {
+			if hp, ok := rec.(HarnessPanic); ok {
+				panic(hp)
+			}
+			if s, ok := rec.(string); ok && len(s) >= 8 && s[:8] == "harness:" {
+				panic(HarnessPanic{s})
+			}
+			UninstallSched()
+			for pausedDepth > 0 {
+				Resume()
+			}
+			sc = &Scenario{Cfg: map[string]float64{"generation_failed": 1}}
+			v = &Violation{Oracle: "panic-during-generation", Msg: fmt.Sprintf("the library panicked / misbehaved while the generator was executing it to build the scenario: %v", rec)}
+		}
+	}()
+	return p.Generate(r, tier), nil
 }
